@@ -122,7 +122,7 @@ META = {
                 note="Common representable domain only (no tuples/bytes/NaN/non-str keys)."),
     "C29": dict(cat="exploration", eng="E3 product enumeration in a sandbox", ref="3 (C29)",
                 tech="exhaustive product enumeration of Filer flag combinations x relative names/bases (with dotted segments) x short open/reopen/close histories on the real Filer in a sandbox directory tree, recursive snapshot diff around every step",
-                text="temp x clean x filed x extensioned x reuse x clear (2^6) x 9 names x 6 bases (incl. '..') x history shapes {init-close, init-reopen-close, direct remake() with relative / absolute base / absolute name, reopen with the temp flag flipped, openFiler context manager with and without a flip inside, FilerDoer enter/exit, also with the filer closed by somebody else in between and on a filer that is already open, the primary head directory unusable so that the alternate head is taken, relative head directories with the working directory changed before the clearing close} (thorough: each followed by a second reopen/close round); a foreign sibling file is planted next to every path the Filer opens; Filer's class-level directories are redirected into a sandbox under /dev/shm with sentinel files in every ancestor and sibling directory: everything created or deleted must lie inside the head directory (the instance's mkdtemp directory when temp); every clearing step (close(clear=True), reopen(clear=True), openFiler exit, FilerDoer.exit) deletes only at or below the path the instance had, leaves nothing there, and leaves no mkdtemp directory of the instance.",
+                text="temp x clean x filed x extensioned x reuse x clear (2^6) x 9 names x 6 bases (incl. '..') x history shapes {init-close, init-reopen-close, direct remake() with relative / absolute base / absolute name, reopen with the temp flag flipped, openFiler context manager with and without a flip inside, FilerDoer enter/exit, also with the filer closed by somebody else in between and on a filer that is already open, the primary head directory unusable so that the alternate head is taken, relative head directories with the working directory changed before the clearing close, perm=0o600} (thorough: each followed by a second reopen/close round); a foreign sibling file is planted next to every path the Filer opens; Filer's class-level directories are redirected into a sandbox under /dev/shm with sentinel files in every ancestor and sibling directory: everything created or deleted must lie inside the head directory (the instance's mkdtemp directory when temp); every clearing step (close(clear=True), reopen(clear=True), openFiler exit, FilerDoer.exit) deletes only at or below the path the instance had, leaves nothing there, and leaves no mkdtemp directory of the instance.",
                 note="Runs as root on tmpfs, so the permission-driven fallback to the alternate head is watched but not exercised. Left-over mkdtemp directories of temp Filers are a recorded KNOWN-FINDING (2 keys). Intermediate directories of persistent Filers may stay (shared)."),
     "C30": dict(cat="model_checking", eng="E1-sched + virtual asyncio loop, differential", ref="3 (C30), 2 (virtual loop)",
                 tech="stateless exploration incl. all asyncio ready-queue orders on a hand-stepped event loop; do() vs ado() differential",
